@@ -12,6 +12,7 @@ Exceptions: `Err.lss` = `LssError`, `Err.other` = anything else (`struct.error` 
 out-of-range field or of `unpack_from` on a short reply, `ValueError` of a bytearray item
 assignment, `TypeError` of unpacking `None`).
 `time.sleep` calls are pacing only and have no counterpart here (trusted base).
+Reply latency against `RESPONSE_TIMEOUT` (`awaitReply`, `delayedStep`, `settle`) is the last section.
 -/
 import CanopenModel.Bytes
 import CanopenModel.Generated.Lss
@@ -280,5 +281,59 @@ def runCall {σ : Type} (step : PeerStep σ) (st : MSt σ) : Call → MSt σ × 
       mapRet (fun _ => .unit) (sendIdentifyRemoteSlave step st v p rl rh sl sh)
   | .identifyNonConfigured => mapRet (fun _ => .unit) (sendIdentifyNonConfiguredRemoteSlave step st)
   | .fastScan => mapRet (fun r => .scan r.1 r.2) (fastScan step st)
+
+/-! ### reply latency against `RESPONSE_TIMEOUT`
+
+`__send_command` waits with `self.responses.get(block=True, timeout=self.RESPONSE_TIMEOUT)` — the same
+time-out for every service, fast scan included, looked up on the instance at the time of the call.
+Time is counted in ticks from the moment the request went out; `T` is `RESPONSE_TIMEOUT` in ticks.
+A reaction of the peer reaches the queue after its *latency* (`none`: never, the frame is lost).
+The functions above are the master on a bus without latency; `delayedStep T lats step` is the same
+peer seen through the master's time-out: a reaction that is not there in time is silence for the
+request it belongs to, and what arrives too late is in the queue when the next request goes out
+(it came in after `__send_command` looked for left-overs) or, after the last request of a call,
+when the call has returned (`settle`). -/
+
+/-- the blocking `get` with time-out `T` against a reaction `latency` ticks away: it is obtained iff
+    `latency < T` -/
+def awaitReply {α : Type} (T : Nat) (latency : Option Nat) (reaction : α) : Option α :=
+  match latency with
+  | some l => if l < T then some reaction else none
+  | none => none
+
+def inTime (T : Nat) (latency : Option Nat) : Bool := (awaitReply T latency ()).isSome
+
+/-- latency of the reaction to the k-th request (requests numbered from 0 over the whole history);
+    requests that are not listed are answered without latency (before `send_message` returns) -/
+abbrev Latencies := List (Nat × Option Nat)
+
+def latencyOf : Latencies → Nat → Option (Option Nat)
+  | [], _ => none
+  | (k, l) :: rest, n => if k = n then some l else latencyOf rest n
+
+/-- a peer behind a channel with latency: the peer itself, the number of requests so far, and the
+    frames that missed the wait they were meant for and are still on their way -/
+structure Delayed (σ : Type) where
+  inner : σ
+  count : Nat
+  late : List Frame
+
+/-- what was too late: on its way if it arrives at all -/
+def missed (latency : Option Nat) (reaction : List Frame) : List Frame :=
+  if latency.isSome then reaction else []
+
+def delayedStep {σ : Type} (T : Nat) (lats : Latencies) (step : PeerStep σ) : PeerStep (Delayed σ) :=
+  fun d f =>
+    let r := step d.inner f
+    match latencyOf lats d.count with
+    | none => ({ inner := r.1, count := d.count + 1, late := [] }, d.late ++ r.2)
+    | some l =>
+      match awaitReply T l r.2 with
+      | some fs => ({ inner := r.1, count := d.count + 1, late := [] }, d.late ++ fs)
+      | none => ({ inner := r.1, count := d.count + 1, late := missed l r.2 }, d.late)
+
+/-- the call has returned: whatever is still on its way reaches the queue before the next call -/
+def settle {σ : Type} (st : MSt (Delayed σ)) : MSt (Delayed σ) :=
+  { peer := { st.peer with late := [] }, queue := st.queue ++ received st.peer.late, sent := st.sent }
 
 end Canopen.Lss
